@@ -27,9 +27,11 @@ def run_one(prop: str, tier: str) -> int:
                         "classes": len(prog.classes), "source_digest": prog.digest()}
         mod.check(prog, rep)
         code = finish(rep)
-        if tier == "thorough" and hasattr(mod, "self_audit"):
+        if tier == "thorough" and not os.environ.get("VERIF_EVIDENCE_DIR"):
+            # wider exploration: the self-audit re-runs the rule set on scratch copies carrying one seeded break or benign
+            # twin each; it never changes the verdict on the tree under analysis
             from . import audit
-            audit.run(prop, mod, rep)
+            audit.run(prop, mod, rep, verbose=False)
         return code
     except AnalysisError as exc:
         print(f"ANALYSIS-ERROR property={prop} {exc}")
